@@ -51,6 +51,7 @@ func nearestJiaZi(j int) []int {
 }
 
 func runC16(w *W) {
+	perturbCache = true
 	// naming getters index the same star
 	for i := 0; i < 9; i++ {
 		ns := calendar.NewNineStar(i)
@@ -97,7 +98,7 @@ func runC16(w *W) {
 			}
 		}
 		for _, t := range moments {
-			l := d.At(t.h, t.m, t.s).GetLunar()
+			l := lunarP(d.At(t.h, t.m, t.s), d.J)
 			w.R.Evals++
 			var cur snap
 			cur.ok = true
@@ -272,7 +273,7 @@ func runC16(w *W) {
 			if k > 0 {
 				h = 2*k - 1
 			}
-			l := d.At(h, 0, 0).GetLunar()
+			l := lunarP(d.At(h, 0, 0), d.J)
 			slot := ((h + 1) / 2) % 12
 			refFor := func(branch int) int {
 				var start int
